@@ -327,6 +327,56 @@ func c13Atomics(c *Ctx, r *Result, funcs []*ssa.Function) {
 				Msg: fmt.Sprintf("%s: %s of %s.%s, which concurrent parses update through sync/atomic: the access races with the atomic update and can observe another goroutine's value", key, what, g.Pkg.Pkg.Name(), g.Name())})
 		})
 	}
+	// the value of a process-wide counter must not decide anything a parse does: it is the sum
+	// over all parses running at that moment, so the decision depends on what else runs
+	for _, fn := range funcs {
+		key := c.FuncKey(fn)
+		ord := newOrdinals()
+		allInstrs(fn, func(in ssa.Instruction) {
+			call, ok := in.(*ssa.Call)
+			if !ok || !strings.HasPrefix(callName(call), "sync/atomic.") || len(call.Call.Args) == 0 {
+				return
+			}
+			g, ok := call.Call.Args[0].(*ssa.Global)
+			if !ok || !c.inModuleGlobal(g) {
+				return
+			}
+			decides := false
+			seen := map[ssa.Value]bool{}
+			var walk func(v ssa.Value, d int)
+			walk = func(v ssa.Value, d int) {
+				if v == nil || seen[v] || d > 8 || v.Referrers() == nil {
+					return
+				}
+				seen[v] = true
+				for _, ref := range *v.Referrers() {
+					switch x := ref.(type) {
+					case *ssa.If:
+						decides = true
+					case *ssa.BinOp:
+						walk(x, d+1)
+					case *ssa.UnOp:
+						walk(x, d+1)
+					case *ssa.Convert:
+						walk(x, d+1)
+					case *ssa.Phi:
+						walk(x, d+1)
+					case *ssa.Extract:
+						walk(x, d+1)
+					}
+				}
+			}
+			walk(call, 0)
+			if !decides {
+				return
+			}
+			site := ord.key(key, "shared-decision", g.Name())
+			pos := c.Pos(c.InstrPos(in))
+			r.Instance("R13c", site, pos, "finding", "a decision depends on a process-wide counter", true)
+			r.Report(Finding{Rule: "R13c", Site: site, Pos: pos,
+				Msg: fmt.Sprintf("%s: a branch on the parsing / construction path depends on the value of %s.%s, a counter shared by every parse of the process: what one parse does then depends on how many other parses run at that moment (race-free, but no longer a function of the input)", key, g.Pkg.Pkg.Name(), g.Name())})
+		})
+	}
 	for g := range atomicGlobals {
 		n++
 		r.Instance("R13c", "atomic-global:"+g.Pkg.Pkg.Name()+"."+g.Name(), c.Pos(g.Pos()), "ok", "accessed on the parsing / construction path through sync/atomic", true)
